@@ -11,6 +11,8 @@ Step(ev) ==
       [] ev.e = "ConnClosed" -> v' = ClosedEff(ev.n) /\ Judge(ev, ClosedViol(ev.n, ev.g))
       [] ev.e = "CbStart" /\ ev.k = "request" -> v' = [v EXCEPT !.inHandler = @ \cup {ev.n}] /\ UNCHANGED viol
       [] ev.e = "CbEnd" /\ ev.k = "request" -> v' = [v EXCEPT !.inHandler = @ \ {ev.n}] /\ UNCHANGED viol
+      [] ev.e = "PushStart" -> v' = [v EXCEPT !.inHandler = @ \cup {ev.n}] /\ UNCHANGED viol   \* sending: busy like a running handler
+      [] ev.e = "PushEnd" -> v' = [v EXCEPT !.inHandler = @ \ {ev.n}] /\ UNCHANGED viol
       [] ev.e = "ShutdownCall" -> v' = CallEff /\ UNCHANGED viol
       [] ev.e = "ShutdownRet" -> v' = [v EXCEPT !.ret = ev.err] /\ Judge(ev, RetViol(ev.err))
       [] ev.e = "Tracked" -> Judge(ev, TrackedViol(ev.n, ev.m)) /\ UNCHANGED v
